@@ -221,12 +221,12 @@ pub const MULTI_RULES: &[&str] = &[
 
 pub fn run(id: &str, cfg: &RunCfg) -> PropResult {
     let (p, quick, thorough) = prop(id);
-    let report = if let Some(case) = cfg.case.as_ref().filter(|c| c.starts_with('u') || c.starts_with('k') || c.starts_with('v') || c.starts_with('i') || c.starts_with('q')) {
+    let report = if let Some(case) = cfg.case.as_ref().filter(|c| c.starts_with('u') || c.starts_with('k') || c.starts_with('v') || c.starts_with('i') || c.starts_with('q') || c.starts_with('g')) {
         let mut it = case[1..].split(':');
         let seed: u64 = it.next().and_then(|s| s.parse().ok()).unwrap_or(cfg.seed);
         let idx: u64 = it.next().and_then(|s| s.parse().ok()).unwrap_or(0);
         let mut r = crate::report::Report::default();
-        r.add(idx, if case.starts_with('u') { super::racelanes::suspend_race_case(seed, idx) } else if case.starts_with('v') { super::racelanes::move_cursor_finish_case(seed, idx) } else if case.starts_with('i') { super::racelanes::iter_finish_case(seed, idx) } else if case.starts_with('q') { super::racelanes::sequential_bars_case(seed, idx) } else { super::racelanes::ticker_race_case(seed, idx) });
+        r.add(idx, if case.starts_with('g') { super::racelanes::retarget_window_case(seed, idx) } else if case.starts_with('u') { super::racelanes::suspend_race_case(seed, idx) } else if case.starts_with('v') { super::racelanes::move_cursor_finish_case(seed, idx) } else if case.starts_with('i') { super::racelanes::iter_finish_case(seed, idx) } else if case.starts_with('q') { super::racelanes::sequential_bars_case(seed, idx) } else { super::racelanes::ticker_race_case(seed, idx) });
         r
     } else if let Some(case) = cfg.case.as_ref().filter(|c| c.starts_with('c')) {
         let mut it = case[1..].split(':');
@@ -249,6 +249,11 @@ pub fn run(id: &str, cfg: &RunCfg) -> PropResult {
             // schedule part: real threads (each run brings 2-8 of its own)
             let nc = if cfg.thorough { 20_000 } else { 400 };
             r.merge(crate::report::run_parallel_tagged('c', nc, 4, |i| super::c02conc::concurrent_case(cfg.seed, i)));
+        }
+        if id == "C02" {
+            // schedule part: a member is retargeted while another thread redraws it
+            let ng = if cfg.thorough { 60_000 } else { 1_500 };
+            r.merge(crate::report::run_parallel_tagged('g', ng, workers(), |i| super::racelanes::retarget_window_case(cfg.seed, i)));
         }
         if id == "C03" {
             // schedule part: a second thread's update let loose inside a suspend closure
